@@ -31,7 +31,8 @@ inductive Pred where
   | eq (v : Val)
   | even
   | odd
-  | lt (v : Val)
+  | lt (v : Val)        -- element < v   (`:test '>` with item v)
+  | gt (v : Val)        -- v < element   (`:test '<` with item v)
   deriving DecidableEq, Repr
 
 def Pred.test : Pred → Val → Bool
@@ -39,6 +40,7 @@ def Pred.test : Pred → Val → Bool
   | .even, x => x % 2 == 0
   | .odd, x => x % 2 != 0
   | .lt v, x => decide (x < v)
+  | .gt v, x => decide (v < x)
 
 inductive Fn where
   | inc
@@ -57,14 +59,75 @@ def vButlast (n : Nat) (xs : List Val) : List Val := xs.take (xs.length - n)
 def vSubseq (s : Nat) (e : Option Nat) (xs : List Val) : Except Err (List Val) :=
   let e' := e.getD xs.length
   if s ≤ e' ∧ e' ≤ xs.length then .ok ((xs.drop s).take (e' - s)) else .error .range
-def vRemove (p : Pred) (xs : List Val) : List Val := xs.filter (fun x => !p.test x)
-def vMember (v : Val) (xs : List Val) : List Val := xs.dropWhile (fun x => x != v)
-def vMapcar (f : Fn) (xs : List Val) : List Val := xs.map f.app
+/-- `:key` (none = identity) -/
+def keyApp (key : Option Fn) (x : Val) : Val :=
+  match key with
+  | none => x
+  | some f => f.app x
 
-def insertSorted (v : Val) : List Val → List Val
+/-- the keyword arguments of `remove delete remove-if delete-if remove-duplicates delete-duplicates` -/
+structure RemSpec where
+  pred : Pred                    -- item with its :test, or the predicate of the -if variants
+  key : Option Fn := none        -- :key
+  start : Nat := 0               -- :start
+  stop : Option Nat := none      -- :end
+  count : Option Nat := none     -- :count
+  fromEnd : Bool := false        -- :from-end
+  dups : Bool := false           -- the -duplicates variants (pred is not used)
+  deriving Repr
+
+/-- keep only the first `n` `true`s -/
+def limitFirst : Nat → List Bool → List Bool
+  | _, [] => []
+  | n, false :: bs => false :: limitFirst n bs
+  | 0, true :: bs => false :: limitFirst 0 bs
+  | n + 1, true :: bs => true :: limitFirst n bs
+
+/-- positions (from index `i` on) inside `[start, stop)` whose key satisfies the test -/
+def candidates (sp : RemSpec) (stop : Nat) : Nat → List Val → List Bool
+  | _, [] => []
+  | i, x :: xs => (decide (sp.start ≤ i) && decide (i < stop) && sp.pred.test (keyApp sp.key x))
+      :: candidates sp stop (i + 1) xs
+
+/-- `remove-duplicates`: an element goes when an equal one follows it -/
+def dupLater : List Val → List Bool
+  | [] => []
+  | x :: xs => xs.contains x :: dupLater xs
+
+/-- `remove-duplicates :from-end t`: an element goes when an equal one precedes it -/
+def dupEarlier (seen : List Val) : List Val → List Bool
+  | [] => []
+  | x :: xs => seen.contains x :: dupEarlier (x :: seen) xs
+
+/-- which positions `remove`/`delete` take out (`true` = removed); same length as the list -/
+def maskOf (sp : RemSpec) (xs : List Val) : List Bool :=
+  if sp.dups then (if sp.fromEnd then dupEarlier [] xs else dupLater xs)
+  else
+    let c := candidates sp (sp.stop.getD xs.length) 0 xs
+    match sp.count with
+    | none => c
+    | some n => if sp.fromEnd then (limitFirst n c.reverse).reverse else limitFirst n c
+
+/-- drop the positions marked `true` (a mask shorter than the list keeps the rest) -/
+def applyMask {α : Type} : List Bool → List α → List α
+  | _, [] => []
+  | m, x :: xs => if m.head? = some true then applyMask m.tail xs else x :: applyMask m.tail xs
+
+def vRemove (sp : RemSpec) (xs : List Val) : List Val := applyMask (maskOf sp xs) xs
+def vMember (p : Pred) (key : Option Fn) (xs : List Val) : List Val :=
+  xs.dropWhile (fun x => !p.test (keyApp key x))
+def vMapcar (f : Fn) (xs : List Val) : List Val := xs.map f.app
+def vMapcar2 (xs ys : List Val) : List Val := List.zipWith (· + ·) xs ys
+
+/-- the sort key of an element: `:key`, negated for the predicate `>` -/
+def rank (desc : Bool) (key : Option Fn) (x : Val) : Int :=
+  if desc then -(keyApp key x) else keyApp key x
+
+def insertSorted (rk : Val → Int) (v : Val) : List Val → List Val
   | [] => [v]
-  | x :: xs => if v ≤ x then v :: x :: xs else x :: insertSorted v xs
-def vSort (xs : List Val) : List Val := xs.foldr insertSorted []
+  | x :: xs => if rk v ≤ rk x then v :: x :: xs else x :: insertSorted rk v xs
+def vSort (desc : Bool) (key : Option Fn) (xs : List Val) : List Val :=
+  xs.foldr (insertSorted (rank desc key)) []
 
 def vSetNth (n : Nat) (v : Val) (xs : List Val) : Except Err (List Val) :=
   if n < xs.length then .ok (xs.set n v) else .error .range
@@ -147,10 +210,6 @@ def linkCells (h : Heap) : List Nat → Heap
   | [a] => setCdr h a .nil
   | a :: b :: ks => linkCells (setCdr h a (.cell b)) (b :: ks)
 
-/-- the cells of `as` whose element `delete` keeps -/
-def keptCells (p : Pred) (h : Heap) (as : List Nat) : List Nat :=
-  as.filter (fun a => match h[a]? with | some c => !p.test c.car | none => false)
-
 /-- a list operation with its arguments resolved to references -/
 inductive Op where
   | lit (vs : List Val)
@@ -160,21 +219,22 @@ inductive Op where
   | append (x y : Ref)
   | nthcdr (n : Nat) (x : Ref)           -- cdr, rest = nthcdr 1; pop
   | last (n : Nat) (x : Ref)
-  | member (v : Val) (x : Ref)
+  | member (p : Pred) (key : Option Fn) (x : Ref)   -- member (:test :key), member-if
   | butlast (n : Nat) (x : Ref)
   | subseq (s : Nat) (e : Option Nat) (x : Ref)
   | copyList (x : Ref)
   | reverse (x : Ref)
-  | remove (p : Pred) (x : Ref)
+  | remove (sp : RemSpec) (x : Ref)      -- remove remove-if remove-duplicates with their keywords
   | mapcar (f : Fn) (x : Ref)
+  | mapcar2 (x y : Ref)                  -- (mapcar '+ x y)
   | rplaca (x : Ref) (v : Val)           -- also (setf (car x) v)
   | setNth (n : Nat) (x : Ref) (v : Val) -- (setf (nth n x) v), (setf (elt x n) v)
   | rplacd (x y : Ref)
   | nconc (x y : Ref)
   | add (x : Ref) (vs : List Val)
   | nreverse (x : Ref)
-  | sort (x : Ref)
-  | delete (p : Pred) (x : Ref)
+  | sort (desc : Bool) (key : Option Fn) (x : Ref)   -- (sort x '< / '> [:key f])
+  | delete (sp : RemSpec) (x : Ref)
   deriving Repr
 
 /-- documented as destructive (may write existing cells) -/
@@ -190,24 +250,25 @@ def Op.extending : Op → Bool
 /-- the list arguments of an operation -/
 def Op.listArgs : Op → List Ref
   | .lit _ => []
-  | .alias x | .cons _ x | .listStar _ _ x | .nthcdr _ x | .last _ x | .member _ x | .butlast _ x
+  | .alias x | .cons _ x | .listStar _ _ x | .nthcdr _ x | .last _ x | .member _ _ x | .butlast _ x
   | .subseq _ _ x | .copyList x | .reverse x | .remove _ x | .mapcar _ x | .rplaca x _ | .setNth _ x _
-  | .add x _ | .nreverse x | .sort x | .delete _ x => [x]
-  | .append x y | .rplacd x y | .nconc x y => [x, y]
+  | .add x _ | .nreverse x | .sort _ _ x | .delete _ x => [x]
+  | .append x y | .rplacd x y | .nconc x y | .mapcar2 x y => [x, y]
 
-/-- `remove` on the cells `as` of the argument (read in `h0`): as soon as nothing further is to be
-    removed the remaining cells are shared (the language allows the result to share a tail with the
-    argument, and to be the argument itself when nothing is removed); before that, kept elements
-    are copied into fresh cells. -/
-def removeCells (p : Pred) (h0 : Heap) : List Nat → Heap × Ref
-  | [] => (h0, .nil)
-  | a :: as =>
-    if (carsOf h0 (a :: as)).all (fun v => !p.test v) then (h0, .cell a)
-    else
-      let (h1, r) := removeCells p h0 as
-      match h0[a]? with
-      | some c => if p.test c.car then (h1, r) else (h1 ++ [⟨c.car, r⟩], .cell h1.length)
-      | none => (h1, r)
+/-- `remove` on the cells `as` of the argument, `m` marking the positions to take out: as soon as
+    nothing further is to be removed the remaining cells are shared (the language allows the result
+    to share a tail with the argument, and to be the argument itself when nothing is removed);
+    before that, kept elements are copied into fresh cells. -/
+def removeCells (h0 : Heap) : List Bool → List Nat → Heap × Ref
+  | _, [] => (h0, .nil)
+  | m, a :: as =>
+    if m.any id then
+      let (h1, r) := removeCells h0 m.tail as
+      if m.head? = some true then (h1, r)
+      else match h0[a]? with
+        | some c => (h1 ++ [⟨c.car, r⟩], .cell h1.length)
+        | none => (h1, r)
+    else (h0, .cell a)
 
 /-- the heap transformer of each operation: new heap and the reference of the result -/
 def run (h : Heap) : Op → Except Err (Heap × Ref)
@@ -225,9 +286,9 @@ def run (h : Heap) : Op → Except Err (Heap × Ref)
   | .last n x => do
       let as ← chainOf h x
       .ok (h, refOf (as.drop (as.length - n)))
-  | .member v x => do
+  | .member p key x => do
       let as ← chainOf h x
-      .ok (h, refOf (as.drop ((carsOf h as).takeWhile (fun c => c != v)).length))
+      .ok (h, refOf (as.drop ((carsOf h as).takeWhile (fun c => !p.test (keyApp key c))).length))
   | .butlast n x => do
       let as ← chainOf h x
       .ok (allocList h (vButlast n (carsOf h as)) .nil)
@@ -241,12 +302,16 @@ def run (h : Heap) : Op → Except Err (Heap × Ref)
   | .reverse x => do
       let as ← chainOf h x
       .ok (allocList h (carsOf h as).reverse .nil)
-  | .remove p x => do
+  | .remove sp x => do
       let as ← chainOf h x
-      .ok (removeCells p h as)
+      .ok (removeCells h (maskOf sp (carsOf h as)) as)
   | .mapcar f x => do
       let as ← chainOf h x
       .ok (allocList h (vMapcar f (carsOf h as)) .nil)
+  | .mapcar2 x y => do
+      let as ← chainOf h x
+      let bs ← chainOf h y
+      .ok (allocList h (vMapcar2 (carsOf h as) (carsOf h bs)) .nil)
   | .rplaca x v => do
       let as ← chainOf h x
       match as with
@@ -279,12 +344,12 @@ def run (h : Heap) : Op → Except Err (Heap × Ref)
   | .nreverse x => do
       let as ← chainOf h x
       .ok (writeCars h as (carsOf h as).reverse, x)
-  | .sort x => do
+  | .sort desc key x => do
       let as ← chainOf h x
-      .ok (writeCars h as (vSort (carsOf h as)), x)
-  | .delete p x => do
+      .ok (writeCars h as (vSort desc key (carsOf h as)), x)
+  | .delete sp x => do
       let as ← chainOf h x
-      let ks := keptCells p h as
+      let ks := applyMask (maskOf sp (carsOf h as)) as
       .ok (linkCells h ks, refOf ks)
 
 /-- the cells a destructive operation may write: everything reachable from its list arguments.
@@ -316,20 +381,21 @@ def valueOf (op : Op) (xs ys : List Val) : Except Err (List Val) :=
   | .append .. => .ok (xs ++ ys)
   | .nthcdr n _ => .ok (vNthcdr n xs)
   | .last n _ => .ok (vLast n xs)
-  | .member v _ => .ok (vMember v xs)
+  | .member p key _ => .ok (vMember p key xs)
   | .butlast n _ => .ok (vButlast n xs)
   | .subseq s e _ => vSubseq s e xs
   | .copyList _ => .ok xs
   | .reverse _ => .ok xs.reverse
-  | .remove p _ => .ok (vRemove p xs)
+  | .remove sp _ => .ok (vRemove sp xs)
   | .mapcar f _ => .ok (vMapcar f xs)
+  | .mapcar2 .. => .ok (vMapcar2 xs ys)
   | .rplaca _ v => vRplaca v xs
   | .setNth n _ v => vSetNth n v xs
   | .rplacd .. => vRplacd ys xs
   | .nconc .. => .ok (xs ++ ys)
   | .add _ vs => .ok (xs ++ vs)
   | .nreverse _ => .ok xs.reverse
-  | .sort _ => .ok (vSort xs)
-  | .delete p _ => .ok (vRemove p xs)
+  | .sort desc key _ => .ok (vSort desc key xs)
+  | .delete sp _ => .ok (vRemove sp xs)
 
 end SlipVerif.ListHeap
